@@ -23,6 +23,11 @@ pub fn run_case(c: &Value) -> Value {
     for l in c.get("links").and_then(Value::as_array).cloned().unwrap_or_default() {   // [name under pub, target relative to root]
         fs::create_dir_all(root.join("outside")).unwrap();
         fs::write(root.join("outside/secret.txt"), b"SECRET").unwrap();
+        // siblings of the served directory whose names begin with its name: outside it all the same
+        for sib in ["pub2", "pub-old", "pub.bak", "pubs"] {
+            fs::create_dir_all(root.join(sib)).unwrap();
+            fs::write(root.join(sib).join("secret.txt"), b"SECRET").unwrap();
+        }
         std::os::unix::fs::symlink(root.join(l[1].as_str().unwrap()), pubdir.join(l[0].as_str().unwrap())).unwrap();
     }
     let dir: &'static str = Box::leak(pubdir.to_str().unwrap().to_string().into_boxed_str());
